@@ -830,6 +830,11 @@ func doReplay(path string) int {
 		return 2
 	}
 	v := seqx.Replay(spec(0, time.Time{}), doc.First.Replay.Indices)
+	if v == nil { // violations the search walks through (see recordSoft)
+		for _, r := range soft {
+			v = &r.v
+		}
+	}
 	if v != nil {
 		fmt.Printf("VIOLATION property=C17 replay=%s\n  %s: %s\n", path, v.Key, v.Message)
 		return 1
